@@ -146,6 +146,7 @@ def run(ctx):
         and isinstance(a_s[0], ast.Subscript) and norm(a_s[0].value) in mappings and norm(a_v[0].value) != norm(a_s[0].value)
     ctx.check(ok_auto, "OFFSET", "auto mode mappings", func=f, construct="offset:auto", msg="auto mode must renumber through voice_mapping / staff_mapping")
     X.rule_offset_table_is_max(ctx)
+    X.rule_yield_unconditional(ctx)
     # ---- DISCARD
     ctx.rule("DISCARD", "el_to_discard (applied to all parts but the first) contains the structural classes the documentation lists; "
                         "Clef is kept in the staff modes (each part keeps its staves)")
